@@ -10,7 +10,10 @@
 //	deliver / restart - stateful histories: source operations stamped t delivered in plan order to one writer;
 //	          restart builds a new writer from the plan's dropped-objects table while the downstream state stays;
 //	          fail = the downstream rejects the operation's own request; inflight = while the request is in
-//	          flight another goroutine's drop event of an object of the chain is handled completely.
+//	          flight another goroutine's drop event of an object of the chain is handled completely.  inflight = a
+//	          create kind: the operation overtakes the create of an object of its chain (it arrives first, on the
+//	          other input stream); the create is handled completely by another goroutine while the operation's
+//	          probe of that object is in flight - if the writer never probes, the create is delivered afterwards.
 package main
 
 import (
@@ -234,6 +237,11 @@ var ownAPI = map[string]string{
 	"loadPartitions": "LoadPartitions", "releasePartitions": "ReleasePartitions",
 }
 
+// probeOf: the describe call that probes the object a create kind makes
+var probeOf = map[string]string{
+	"createDatabase": "DescribeDatabase", "createCollection": "DescribeCollection", "createPartition": "DescribePartition",
+}
+
 func (wd *world) deliver(st map[string]interface{}) hx.Event {
 	kind, db, coll, part := hx.S(st, "kind"), hx.S(st, "db"), hx.S(st, "coll"), hx.S(st, "part")
 	t := uint64(hx.I(st, "t"))
@@ -249,7 +257,34 @@ func (wd *world) deliver(st map[string]interface{}) hx.Event {
 	ok2 := true
 	mark := -1 // index of the first call of the in-flight operation
 	end := -1
-	if inflight != "" {
+	mdb, mcoll, mpart := pdb, pcoll, ppart // downstream after an in-flight create
+	// names of the object of the second operation (a drop / create of a level of the chain)
+	icoll, ipart := coll, part
+	switch inflight {
+	case "dropDatabase", "createDatabase":
+		icoll, ipart = "", ""
+	case "dropCollection", "createCollection":
+		ipart = ""
+	}
+	if _, isCreate := probeOf[inflight]; isCreate {
+		done := false
+		f.OnProbe = func(c *wfake1.Call) {
+			if done || c.API != probeOf[inflight] {
+				return
+			}
+			done = true
+			f.OnProbe = nil
+			// the probe is in flight: another goroutine handles the create of the probed object completely
+			n := func() int { cs := f.Take(); f.Calls = cs; return len(cs) }
+			mark = n()
+			saveT, saveFail := f.CurT, f.FailAPI
+			f.CurT, f.FailAPI = int64(t2), map[string]bool{}
+			ok2 = send(wd.w, inflight, db, icoll, ipart, t2) == nil
+			end = n()
+			f.CurT, f.FailAPI = saveT, saveFail
+			mdb, mcoll, mpart = born(f, wd.tdb(db), coll, part)
+		}
+	} else if inflight != "" {
 		done := false
 		f.OnCall = func(c *wfake1.Call) {
 			if done || c.API != own {
@@ -262,12 +297,6 @@ func (wd *world) deliver(st map[string]interface{}) hx.Event {
 			mark = n()
 			saveT, saveFail := f.CurT, f.FailAPI
 			f.CurT, f.FailAPI = int64(t2), map[string]bool{}
-			icoll, ipart := coll, part
-			if inflight == "dropDatabase" {
-				icoll, ipart = "", ""
-			} else if inflight == "dropCollection" {
-				ipart = ""
-			}
 			ok2 = send(wd.w, inflight, db, icoll, ipart, t2) == nil
 			end = n()
 			f.CurT, f.FailAPI = saveT, saveFail
@@ -275,6 +304,7 @@ func (wd *world) deliver(st map[string]interface{}) hx.Event {
 	}
 	err := send(wd.w, kind, db, coll, part, t)
 	f.OnCall = nil
+	f.OnProbe = nil
 	f.FailAPI = map[string]bool{}
 	calls := f.Take()
 	cj := wfake1.CallJSON(calls)
@@ -286,14 +316,8 @@ func (wd *world) deliver(st map[string]interface{}) hx.Event {
 		cj[i]["who"] = who
 	}
 	if inflight != "" && mark < 0 {
-		// the operation never sent its request (skipped / not ready): the drop is delivered after it
+		// the operation never sent its request (skipped / not ready) resp. never probed: the second operation is delivered after it
 		f.CurT = int64(t2)
-		icoll, ipart := coll, part
-		if inflight == "dropDatabase" {
-			icoll, ipart = "", ""
-		} else if inflight == "dropCollection" {
-			ipart = ""
-		}
 		ok2 = send(wd.w, inflight, db, icoll, ipart, t2) == nil
 		c2 := wfake1.CallJSON(f.Take())
 		for i := range c2 {
@@ -303,7 +327,7 @@ func (wd *world) deliver(st map[string]interface{}) hx.Event {
 	}
 	return hx.Event{"op": "deliver", "kind": kind, "db": db, "coll": coll, "part": part, "t": t, "fail": fail,
 		"inflight": inflight, "t2": t2, "ok": err == nil, "ok2": ok2, "ran2": mark >= 0,
-		"pdb": pdb, "pcoll": pcoll, "ppart": ppart, "calls": cj, "down": f.Snapshot()}
+		"pdb": pdb, "pcoll": pcoll, "ppart": ppart, "mdb": mdb, "mcoll": mcoll, "mpart": mpart, "calls": cj, "down": f.Snapshot()}
 }
 
 func run(p *hx.Plan) []hx.Event {
